@@ -768,7 +768,12 @@ func (rc *RegClient) imageCopyOpt(ctx context.Context, refSrc ref.Ref, refTgt re
 		} else {
 			if errors.Is(err, context.Canceled) {
 				// try to find a better error message than context canceled
+				errPrev := err
 				err = <-waitCh
+				if err == nil {
+					// a task that finished successfully must not hide the failure
+					err = errPrev
+				}
 			} else {
 				<-waitCh
 			}
@@ -922,7 +927,12 @@ func (rc *RegClient) imageCopyOpt(ctx context.Context, refSrc ref.Ref, refTgt re
 		} else {
 			if errors.Is(err, context.Canceled) {
 				// try to find a better error message than context canceled
+				errPrev := err
 				err = <-waitCh
+				if err == nil {
+					// a task that finished successfully must not hide the failure
+					err = errPrev
+				}
 			} else {
 				<-waitCh
 			}
